@@ -59,3 +59,17 @@ func (uconn *UConn) VerifGreaseSeed() []uint16 { return append([]uint16(nil), uc
 
 // VerifHostnameInSNI exposes hostnameInSNI.
 func VerifHostnameInSNI(name string) string { return hostnameInSNI(name) }
+
+// VerifGreaseECHFields exposes the frozen/unexported state of a GREASE ECH extension.
+func VerifGreaseECHFields(g *GREASEEncryptedClientHelloExtension) (kdf, aead uint16, configId uint8, enc, payload []byte) {
+	return g.cipherSuite.KdfId, g.cipherSuite.AeadId, g.configId, g.EncapsulatedKey, g.payload
+}
+
+// VerifSetGreaseECH freezes a GREASE ECH extension to the given draws (as init() would).
+func VerifSetGreaseECH(g *GREASEEncryptedClientHelloExtension, kdf, aead uint16, configId uint8, enc, payload []byte) {
+	g.initOnce.Do(func() {})
+	g.cipherSuite = HPKESymmetricCipherSuite{kdf, aead}
+	g.configId = configId
+	g.EncapsulatedKey = enc
+	g.payload = payload
+}
